@@ -550,6 +550,53 @@ func c13Run(c c13Case, st *vlib.Stats) string {
 	return ""
 }
 
+// c13HeavyLog is a fixed schedule: one session that appends several megabytes to the log (12 statements of
+// 1000 rows of 380 bytes each, given as values through the Go API) with the real timer running, then a few
+// small statements held open: whatever the code does once a store has logged a lot - checkpoints, log
+// rotation - has to respect the statement bracket and the log-before-data order like everything else.
+func c13HeavyLog(stmts, rowsPer int) c13Case {
+	c := c13Case{LogWatch: 1}
+	cr := model.Stmt{Kind: "create", Table: "w", Cols: []model.Col{{Name: "a", Type: model.TInt}, {Name: "s", Type: model.TVarchar, Len: 400}}}
+	cr.SQL = gen.RenderStmt(gen.Plain(), cr)
+	c.Steps = append(c.Steps, c13Step{Stmt: &cr})
+	pad := strings.Repeat("p", 380)
+	n := 0
+	for i := 0; i < stmts; i++ {
+		ins := model.Stmt{Kind: "insert", Table: "w"}
+		for k := 0; k < rowsPer; k++ {
+			ins.Rows = append(ins.Rows, []model.Val{model.Int(int64(n)), model.Str(pad)})
+			n++
+		}
+		c.Steps = append(c.Steps, c13Step{Stmt: &ins})
+	}
+	for i := 0; i < 3; i++ {
+		ins := model.Stmt{Kind: "insert", Table: "w", Rows: [][]model.Val{{model.Int(int64(n)), model.Str("x")}}}
+		n++
+		c.Steps = append(c.Steps, c13Step{Stmt: &ins, ParkMs: 130, IdleMs: 20})
+	}
+	return c
+}
+
 func TestC13(t *testing.T) {
-	vlib.Drive(t, vlib.Prop[c13Case]{ID: "C13", Gen: c13Gen, Run: c13Run, Shrink: 5 * time.Second})
+	st := vlib.NewStats("C13")
+	defer st.Write(Cfg, "C13")
+	if Cfg.Replay == "" && Cfg.Shard == 0 {
+		hc := c13HeavyLog(12, 1000)
+		if msg := c13Run(hc, st); msg != "" {
+			// (the case is large: the replay file holds its shape only)
+			b, _ := json.Marshal(map[string]interface{}{"heavy_log": true, "stmts": 12, "rows_per_stmt": 1000})
+			st.Fail("fixed heavy-log schedule (12 x 1000 rows of 380 bytes, then held statements): "+msg, b)
+			vlib.Logf("FAIL C13 (heavy log): %s", msg)
+			return
+		}
+	}
+	if Cfg.Replay != "" {
+		if raw, err := vlib.LoadReplay(Cfg.Replay); err == nil && bytes.Contains(raw, []byte(`"heavy_log"`)) {
+			if msg := c13Run(c13HeavyLog(12, 1000), st); msg != "" {
+				st.Fail("fixed heavy-log schedule: "+msg, raw)
+			}
+			return
+		}
+	}
+	vlib.DriveWith(t, vlib.Prop[c13Case]{ID: "C13", Gen: c13Gen, Run: c13Run, Shrink: 5 * time.Second}, Cfg, st)
 }
